@@ -46,7 +46,7 @@ def run(ctx):
     quick = ctx.quick
     rng = random.Random(ctx.seed)
     ctx.mc("MC_Sexp", {"MaxLen": 5 if quick else 7}, ["ReaderRefines", "CaseInsensitive", "NoTrailing", "TokensOnly"],
-           timeout=1500)
+           timeout=3600)
     ctx.mc("MC_Sexp", {"MaxLen": 5}, ["BadTabDeleted"], expect_violation=True)
     ctx.mc("MC_Sexp", {"MaxLen": 5}, ["BadTailIgnored"], expect_violation=True)
     texts = list(drive_sexp.exhaustive(4 if quick else 6))
